@@ -268,6 +268,7 @@ Definition compare (n : node) (a : arg) (op : cop) (right : string) (path : list
       match header_x a with
       | inr k => Panic k
       | inl None => Ret res0 None
+      | inl (Some CNil) => Ret res0 None               (* if x == nil { return } (fix: 1a38871) *)
       | inl (Some c) =>
         match cmp n c 0 path op right res0 with
         | Fall r => Ret r None
